@@ -26,6 +26,9 @@ pub struct Region {
 pub struct AttrSpan {
     pub start: usize,
     pub end: usize,
+    /// attribute type code and start of its value
+    pub code: u8,
+    pub vstart: usize,
 }
 
 #[derive(Clone, Debug, Default)]
@@ -40,7 +43,7 @@ pub struct Layout {
     pub update: Option<(usize, usize, usize)>,
 }
 
-fn be16(b: &[u8], o: usize) -> usize {
+pub fn be16(b: &[u8], o: usize) -> usize {
     ((b[o] as usize) << 8) | b[o + 1] as usize
 }
 
@@ -116,7 +119,7 @@ pub fn dissect(b: &[u8]) -> Layout {
                 }
                 l.type_bytes.push(p); // flags
                 l.type_bytes.push(p + 1); // code
-                l.attrs.push(AttrSpan { start: p, end: vend });
+                l.attrs.push(AttrSpan { start: p, end: vend, code, vstart: vs });
                 match code {
                     14 if alen >= 5 => {
                         l.regions.push(Region { start: vs, end: vs + 3, kind: "mp-afi-safi" });
